@@ -92,7 +92,12 @@ func checkSPDXOutput(c *core.C, d *sbom.Document, out []byte, det map[string]any
 	for _, key := range []string{"packages", "files"} {
 		for _, e := range jarr(top, key) {
 			m, _ := e.(jmap)
-			id := strings.TrimPrefix(jstr(m, "SPDXID"), "SPDXRef-")
+			id := jstr(m, "SPDXID")
+			if !strings.HasPrefix(id, "SPDXRef-") {
+				c.Violatef("spdx-element-id-without-prefix", det, "SPDX output defines an element whose SPDXID %q lacks the SPDXRef- prefix", id)
+				return false
+			}
+			id = strings.TrimPrefix(id, "SPDXRef-")
 			defined[id]++
 			algos[id] = map[string]string{}
 			for _, cs := range jarr(m, "checksums") {
@@ -130,8 +135,16 @@ func checkSPDXOutput(c *core.C, d *sbom.Document, out []byte, det map[string]any
 	have := gen.Set{}
 	for _, e := range jarr(top, "relationships") {
 		m, _ := e.(jmap)
-		a := strings.TrimPrefix(jstr(m, "spdxElementId"), "SPDXRef-")
-		b := strings.TrimPrefix(jstr(m, "relatedSpdxElement"), "SPDXRef-")
+		// an element reference is "SPDXRef-<id>"; a bare NONE / NOASSERTION is the specification's "no element"
+		// value, not a reference to an element that happens to be called NONE
+		ref := func(v string) string {
+			if strings.HasPrefix(v, "SPDXRef-") {
+				return strings.TrimPrefix(v, "SPDXRef-")
+			}
+			return "(not an element reference: " + v + ")"
+		}
+		a := ref(jstr(m, "spdxElementId"))
+		b := ref(jstr(m, "relatedSpdxElement"))
 		t := jstr(m, "relationshipType")
 		have.Add(a + "\x00" + t + "\x00" + b)
 		for _, end := range []string{a, b} {
@@ -439,6 +452,10 @@ func c03Generated(c *core.C) *sbom.Document {
 				return sbom.NewNodeIdentifier("node", gen.Pick(r, seeds)+gen.IDSpdx(r)[:1])
 			}
 			return sbom.NewNodeIdentifier(gen.Pick(r, seeds), gen.IDSpdx(r))
+		}
+		if r.Intn(12) == 0 {
+			// identifiers spelled like words the formats reserve for something else
+			return gen.Pick(r, []string{"NONE", "NOASSERTION", "none", "NoAssertion", "null", "true", "ROOT", "root", "metadata", "component", "SPDXRef", "Document"})
 		}
 		if r.Intn(2) == 0 {
 			return gen.IDSpdx(r)
